@@ -4,3 +4,4 @@ import XProofs.Properties.C10
 #print axioms Properties.C10.C10_limit_clamp
 #print axioms Properties.C10.C10_weight_limits
 #print axioms Properties.C10.C10_inactive_knob_untouched
+#print axioms Properties.C10.C10_disabled_knob_never_changed
